@@ -9,7 +9,7 @@ open Adeu
 
 /-- `_has_special_content`: any child other than t, tab, br, cr, delText (and rPr). -/
 def Atom.special : Atom → Bool
-  | .t _ | .dt _ | .tab | .br | .cr => false
+  | .t _ | .dt _ | .tab | .br | .cr | .brT _ => false
   | _ => true
 
 def runSpecial (r : Run) : Bool := r.ch.any Atom.special
